@@ -16,13 +16,17 @@ Pow2s == {2^i : i \in 0..(M - 1)}
 DataPos == {p \in 1..N : p \notin Pow2s}
 RECURSIVE Rank(_, _)
 Rank(p, q) == IF q = 0 THEN 0 ELSE (IF q \in DataPos THEN 1 ELSE 0) + Rank(p, q - 1)     \* data positions <= q
-DIdx(p) == Rank(p, p)                                                                     \* 1-based data index of position p
 PBit(p, i) == (p \div (2^i)) % 2
+(* constant tables (TLC evaluates them once) *)
+IdxOfPos == [p \in DataPos |-> Rank(p, p)]                               \* 1-based data index of a data position
+PosOfIdx == [j \in 1..K |-> CHOOSE p \in DataPos : IdxOfPos[p] = j]
+Cover == [i \in 0..(M - 1) |-> {p \in 1..N : PBit(p, i) = 1}]            \* positions covered by check bit i
+CheckOf == [p \in Pow2s |-> CHOOSE i \in 0..(M - 1) : 2^i = p]
 Par(S) == Cardinality(S) % 2
-Syn(w, i) == Par({p \in 1..N : PBit(p, i) = 1 /\ w[p] = 1})
+Syn(w, i) == Par({p \in Cover[i] : w[p] = 1})
 Encode(d) ==
-    LET w0 == [p \in 1..N |-> IF p \in DataPos THEN d[DIdx(p)] ELSE 0]
-        w  == [p \in 1..N |-> IF p \in Pow2s THEN Syn(w0, CHOOSE i \in 0..(M - 1) : 2^i = p) ELSE w0[p]]
+    LET w0 == [p \in 1..N |-> IF p \in DataPos THEN d[IdxOfPos[p]] ELSE 0]
+        w  == [p \in 1..N |-> IF p \in Pow2s THEN Syn(w0, CheckOf[p]) ELSE w0[p]]
     IN [p \in 0..N |-> IF p = 0 THEN Par({q \in 1..N : w[q] = 1}) ELSE w[p]]
 RECURSIVE SynVal(_, _)
 SynVal(r, i) == IF i = M THEN 0 ELSE Syn(r, i) * (2^i) + SynVal(r, i + 1)
@@ -30,7 +34,7 @@ Decode(r) ==
     LET s   == SynVal(r, 0)
         par == Par({q \in 0..N : r[q] = 1})
         c   == [p \in 1..N |-> IF p = s THEN 1 - r[p] ELSE r[p]]
-    IN [d   |-> [j \in 1..K |-> c[CHOOSE p \in DataPos : DIdx(p) = j]],
+    IN [d   |-> [j \in 1..K |-> c[PosOfIdx[j]]],
         sec |-> IF NoParityCheck THEN s # 0 ELSE (s # 0 /\ par = 1),
         ded |-> IF NoParityCheck THEN FALSE ELSE (s # 0 /\ par = 0)]
 Flip(w, F) == [p \in 0..N |-> IF p \in F THEN 1 - w[p] ELSE w[p]]
